@@ -153,3 +153,18 @@ def exports_symbol_file_contract(program, expected):
     f = ghost_get("opened:out.sym")
     text = "".join(f.written)
     check("symbol_file_text", text == expected)
+
+
+def token_trace_contract(token):
+    """a token that has a position has a trace (the text MZParser.parse_as_ast returns as the error): never None"""
+    t = token.trace()
+    check("a_located_token_has_a_trace", t is not None)
+
+
+def parse_as_ast_reports_contract(token):
+    """when the parser fails with a syntax error carrying a located token, parse_as_ast returns an error (not None) and no statements"""
+    from a816.parse.mzparser import MZParser
+    ghost("error_token", token)
+    r = MZParser.parse_as_ast("lda (", "t.s")
+    check("syntax_error_is_reported", r.error is not None)
+    check("no_statements_on_error", len(r.nodes) == 0)
